@@ -131,7 +131,9 @@ func (k Keeper) GetNextSuperNodes(ctx sdk.Context, status uint32, reputation flo
 	snodes := k.GetAllSuperNodes(ctx)
 	i := uint8(round[0])
 	if len(snodes) > 0 {
-		for {
+		// visit every super node at most once: the exit tests below never fire when the stored
+		// cursor lies beyond a shrunken list, which used to spin forever
+		for tries := 0; tries < len(snodes); tries++ {
 			if i >= uint8(len(snodes)) {
 				i = 0
 			}
